@@ -82,7 +82,7 @@ def _random_job(k):
 
     rng = np.random.default_rng(seed() * 97 + k)
     nx, ny = int(rng.integers(2, 5)), int(rng.integers(2, 8))
-    shape = ["flat", "swept", "tapered", "twisted", "cambered", "dihedral", "all"][k % 7]
+    shape = ["flat", "swept", "tapered", "twisted", "cambered", "dihedral", "all", "steep"][k % 8]
     mesh = B.full_mesh(nx, 2 * ny - 1, shape, span=float(rng.uniform(5, 30)), chord=float(rng.uniform(0.5, 4)), rng=rng, jitter=0.03, asym=float(rng.uniform(0, 0.5)))[:, :ny]
     mesh = mesh + rng.normal(0, 0.02, size=mesh.shape)  # a deformed mesh: sections no longer planar or parallel
     w2 = float(rng.uniform(0, 1)) if k % 5 else float(k % 2)
